@@ -7,6 +7,7 @@ ASSUMPTIONS = [
   "zip container and XML syntax are third-party code (zip 0.6, roxmltree 0.19): abstracted to Missing | Malformed | Tree. Everything below that level is reached only by the byte-level SEARCH stream (no panic / no hang), which is not a proof.",
   "attribute values are abstracted to the classes of Skeleton.aval; the concretiser harness/c25/src/abs.rs chooses one concrete string per class (e.g. Short = \"\" and \"x\", NonBoundary = \"x\\u00e9/...\"). The tie checks model = implementation on every generated package, including the exhaustive set of single edits of four base packages.",
   "Model::from_workbook on an imported workbook is assumed to return Ok without panicking for the generated packages (it parses formulas: C11's domain); the tie observes the composed outcome, so a panic there would show up as a disagreement.",
+  "decode_xlsx_escapes: PROOF of the byte-cursor index safety for every byte string with the shape of UTF-8 (Xlsx/EscapeSafe.v, C25_decode_escapes_index_safe); its returned VALUE is C24's Codec/XmlEscape.v. The text-payload stream (text slots x hostile texts) is SEARCH; for shared-string / t=str / cached-formula-string slots it is also a panic/nopanic TIE with the extracted cursor model",
   "release build: integer overflow wraps (no arithmetic of the importer can overflow on the generated values: rows/columns are validated to the grid before subtraction)",
 ]
 
@@ -38,9 +39,9 @@ def run(cfg):
     if rc2 != 0:
         dis.append({"input": "runner", "impl": "", "model": err[-500:]})
     return {
-        "evaluations": n + meta.get("byte_level_cases", 0),
+        "evaluations": n + meta.get("byte_level_cases", 0) + meta.get("text_payload_cases", 0),
         "distinct_nontrivial": meta.get("distinct_nontrivial", 0),
-        "rule": "TIE (model vs implementation, outcome class ok/err/panic): 4 valid abstract packages (1-3 sheets, absolute/relative targets, defined names, hidden sheet, non-worksheet relationship, shared strings, sheet rels with comments/hyperlink/table), 17 named witnesses, EVERY single edit of each base package (file missing/malformed; per node: delete/duplicate/swap each child, delete all children, toggle text; per attribute: remove, and every alternative abstract state; add each attribute the reader looks at), plus random 2-5 edit combinations (2.5k quick / 40k thorough); all distinct. SEARCH (no model; only no-panic/no-hang): byte-level mutations (truncate, bit flips, delete/duplicate/swap ranges, invalid UTF-8, metacharacters, extreme numbers, multi-byte insertions) of the zip container and of single XML entries re-zipped, seeds = exported workbook, two base packages and the xlsx files under /repo/xlsx/tests (12k quick / up to 300k thorough). Non-trivial = distinct abstract packages.",
+        "rule": "TIE (model vs implementation, outcome class ok/err/panic): 4 valid abstract packages (1-3 sheets, absolute/relative targets, defined names, hidden sheet, non-worksheet relationship, shared strings, sheet rels with comments/hyperlink/table), 17 named witnesses, EVERY single edit of each base package (file missing/malformed; per node: delete/duplicate/swap each child, delete all children, toggle text; per attribute: remove, and every alternative abstract state; add each attribute the reader looks at), plus random 2-5 edit combinations (2.5k quick / 40k thorough); all distinct. TIE (decoder cursor): every plain hostile text (<= 1500 bytes) as shared string, t=\"str\" value and cached formula string: panic/nopanic vs extracted decode_cursor. SEARCH (no model; only no-panic/no-hang): TEXT payloads — one small valid package with 20 text slots (shared string with and without xml:space, rich-text runs, inline string, t=str cached value with and without formula, formula / shared-formula / array-formula text, sheet name, defined-name text and name, comment text, number-format code, hyperlink target and location, error / number cell value, cell type, table column name) x a pool of ~870 hostile texts (every prefix, suffix and single deletion of _x0041_ / _x005F_ / _xZZZZ_ / _x000A_ / _xD800_ / _x00e9_ / _x0000_ / _xFFFF_ alone, at the start, in the middle and at the END of the text, doubled; multi-byte characters straddling the 7-byte window; lone & and malformed entities, &#0;, surrogate / non-character / out-of-range references, entity-produced underscores, CDATA, comments, markup; empty and white-space-only texts; 70 kB texts), EXHAUSTIVE over slot x pool, plus random multi-slot combinations (600 quick / 30k thorough); byte-level mutations (truncate, bit flips, delete/duplicate/swap ranges, invalid UTF-8, metacharacters, extreme numbers, multi-byte insertions) of the zip container and of single XML entries re-zipped, seeds = exported workbook, two base packages and the xlsx files under /repo/xlsx/tests (12k quick / up to 300k thorough). Non-trivial = distinct abstract packages.",
         "samples": meta.get("samples", []),
         "disagreements": dis, "n_disagreements": ndis,
         "oracle_failures": meta.get("oracle_failures", []),
@@ -49,6 +50,10 @@ def run(cfg):
             "model_vs_impl_cases": n, "model_vs_impl_disagreements": ndis,
             "structured_outcomes": meta.get("structured_outcomes", {}),
             "structured_distribution_top": dict(sorted(((k.split(":")[0], 0) for k in meta.get("distribution", {})), key=lambda x: x[0])),
+            "search_only_text_payload_cases": meta.get("text_payload_cases", 0),
+            "search_only_text_payload_outcomes": meta.get("text_payload_outcomes", {}),
+            "search_only_text_payload_by_slot": meta.get("text_payload_by_slot", {}),
+            "text_pool_size": meta.get("text_pool_size", 0), "text_slots": meta.get("text_slots", []),
             "search_only_byte_level_cases": meta.get("byte_level_cases", 0),
             "search_only_byte_level_distribution": meta.get("byte_level_distribution", {}),
             "search_only_byte_level_outcomes": meta.get("byte_level_outcomes", {}),
@@ -58,6 +63,6 @@ def run(cfg):
             "hangs": meta.get("hangs", 0), "max_case_ms": meta.get("max_case_ms", 0),
             "oracle_checked": meta.get("oracle_checked", 0),
             "oracle_failures_per_class": meta.get("oracle_failures_per_class", {}),
-            "labels": {"proof": "navigation skeleton (C25_partial, C25_refuted_*)", "tie": "structured stream", "search": "byte-level stream and hazard witnesses"},
+            "labels": {"proof": "navigation skeleton (C25_partial, C25_refuted_*)", "tie": "structured stream", "search": "text-payload stream, byte-level stream and hazard witnesses"},
         },
     }
